@@ -101,7 +101,8 @@ theorem notK_eq (a : Arr Bool) : notK a = a.map notSlot := by
 /-! ### select -/
 
 def selSlot {α} (s : Slot Bool) (a b : Slot α) : Slot α :=
-  ⟨(s.valid && a.valid) || (!s.valid && b.valid), if s.raw then a.raw else b.raw⟩
+  ⟨((s.raw && s.valid) && a.valid) || (!(s.raw && s.valid) && b.valid),
+    if (s.raw && s.valid) then a.raw else b.raw⟩
 
 def zip3 {α} (f : Slot Bool → Slot α → Slot α → Slot α) : Arr Bool → Arr α → Arr α → Arr α
   | s :: ss, a :: as, b :: bs => f s a b :: zip3 f ss as bs
